@@ -1,7 +1,10 @@
 //! vh — verification harness binary. Sub-commands bind the TLA+ specifications in /verif/specs to
 //! the real crates of /repo (path dependencies, feature `verif`).
 mod bk;
+mod chunker;
 mod common;
+mod members;
+mod syncneeds;
 
 fn main() {
     let args: Vec<String> = std::env::args().collect();
@@ -13,6 +16,10 @@ fn main() {
     let res: eyre::Result<()> = rt.block_on(async {
         match args[1].as_str() {
             "replay-bookkeeping" => bk::run(&args[2]).await,
+            "replay-syncneeds" => syncneeds::run(&args[2]),
+            "replay-members" => members::run(&args[2]),
+            "replay-chunker" => chunker::run_chunker(&args[2]),
+            "replay-chunkrange" => chunker::run_chunkrange(&args[2]),
             other => Err(eyre::eyre!("unknown subcommand {other}")),
         }
     });
